@@ -178,6 +178,15 @@ func runC02(r *core.Run) (bool, string) {
 	for _, a := range gen.OutsideAtoms {
 		pkgs = append(pkgs, gen.OutsidePackage(a))
 	}
+	// random surroundings: the statements before and after each atom are drawn from the seed
+	vrng := core.NewRng(r.Seed, "c02-variants")
+	for v := 0; v < r.Pick(1, 12); v++ {
+		for _, a := range gen.OutsideAtoms {
+			if a.Kind == "stmt" {
+				pkgs = append(pkgs, gen.AtomPackageVariant("o_", a, vrng, v))
+			}
+		}
+	}
 	pkgs = pruneToCompile(r, filepath.Join(r.Scratch, "c02-prune"), pkgs)
 	if pkgs == nil {
 		return false, "catalogue does not compile (framework defect)"
@@ -204,7 +213,7 @@ func runC02(r *core.Run) (bool, string) {
 
 // c02Judge judges every top-level function of an outside-atom package.
 func c02Judge(r *core.Run, p *tvPkg, verdicts map[string]string) {
-	atom := strings.TrimPrefix(p.Name, "o_")
+	atom := strings.TrimPrefix(stripVariant(p.Name), "o_")
 	judgeRejectedOrFaithful(r, p, verdicts, "c02-", func(fn string) (string, string, bool) {
 		if strings.HasPrefix(fn, "host_") {
 			return atom, strings.TrimPrefix(fn, "host_"+atom+"_"), true
@@ -222,7 +231,7 @@ func c02Judge(r *core.Run, p *tvPkg, verdicts map[string]string) {
 // "-silently-dropped".
 func judgeRejectedOrFaithful(r *core.Run, p *tvPkg, verdicts map[string]string, sigPrefix string, judged func(fn string) (atom, pos string, ok bool)) {
 	r.Eval(1)
-	atom := p.Name
+	atom := stripVariant(p.Name)
 	if p.Crashed {
 		// a crash is neither a rejection nor a translation; it is C07's subject and reported there
 		r.Inconclusive("goose-crash")
@@ -459,4 +468,12 @@ func reachableNames(src, fn string) map[string]bool {
 	}
 	walk(fn)
 	return seen
+}
+
+// stripVariant removes the _v<N> suffix of a random-surroundings variant package name.
+func stripVariant(name string) string {
+	if i := strings.LastIndex(name, "_v"); i > 0 && i+2 < len(name) && strings.Trim(name[i+2:], "0123456789") == "" {
+		return name[:i]
+	}
+	return name
 }
